@@ -142,6 +142,30 @@ def test_kind(test: ast.AST) -> Tuple[Optional[str], Optional[str]]:
     return None, None
 
 
+def check_symbol_table_slots(ctx):
+    """The table handed to sympify maps identifiers to what they denote. If the same table stores a Symbol under a plain
+    name and a {index: Symbol} dictionary under the base of indexed names (`x[3]` -> table["x"][3]), a parameter list that
+    contains both `x` and `x[k]` needs slot "x" to be both: whichever is stored second destroys (or cannot be added to) the first.
+    Contradiction rule: one slot, two kinds of value, no test telling them apart."""
+    f = ctx.repo.func(f"{SER}:_make_symbols_map") if ctx.repo.has_func(f"{SER}:_make_symbols_map") else ctx.repo.func(f"{SER}:deserialize_expr")
+    ctx.analysed(f)
+    dict_slots, plain_slots = [], []
+    for n in body_walk(f.node):
+        if isinstance(n, ast.Assign) and isinstance(n.targets[0], ast.Subscript):
+            tgt = n.targets[0]
+            base = tgt.value
+            if isinstance(base, ast.Call) and isinstance(base.func, ast.Attribute) and base.func.attr == "setdefault" and len(base.args) == 2 and isinstance(base.args[1], (ast.Dict, ast.Call)):
+                dict_slots.append((norm(base.func.value), base.args[0], n))
+            elif isinstance(base, ast.Name):
+                plain_slots.append((base.id, tgt.slice, n))
+    hits = [(t, k1, k2, n2) for t, k1, n1 in dict_slots for t2, k2, n2 in plain_slots if t == t2]
+    guarded = any(isinstance(c, ast.Call) and dotted(c.func) == "isinstance" and len(c.args) == 2 and "dict" in norm(c.args[1]).lower() for c in body_walk(f.node))
+    if not dict_slots:
+        ctx.ok(R5, f.key + ":slots", "no table slot holds both a symbol and a dictionary of indexed symbols", f)
+        return
+    ctx.check(not hits or guarded, R5, f.key + ":slots", "a slot holds one kind of value", f"`{hits[0][0]}` stores a dictionary of indexed symbols under `{short(hits[0][1])}` and a plain Symbol under `{short(hits[0][2])}` with nothing keeping the two key spaces apart: a gate whose parameters mention both `x` and `x[0]` (both legal symbol names) cannot be read back -- the second store hits the other kind of value (TypeError: 'Symbol' object does not support item assignment, or the dictionary is replaced and `x[0]` no longer resolves)" if hits else "", f"{f.module.relpath}:{hits[0][3].lineno}" if hits else f)
+
+
 def run(ctx):
     repo = ctx.repo
     arms = writer_arms(repo)
@@ -340,7 +364,24 @@ def run(ctx):
             okp = bool(loops) and "params" in norm(loops[0].iter) and norm(p) == norm(loops[0].target) and count_reversals(loops[0].iter) == 0
             ctx.check(okp, R5, f"{key}:param-order", "every stored parameter deserialised in order", "parameters are not deserialised one by one in stored order", f"{f.module.relpath}:{c.lineno}")
     de = repo.func(f"{SER}:deserialize_expr")
-    okl = any(isinstance(c, ast.Call) and (dotted(c.func) or "").endswith("sympify") and kwarg(c, "locals") is not None and "call:_make_symbols_map" in Defs(de.node).atoms(kwarg(c, "locals")) for c in body_walk(de.node))
+    def _table_from_names(fn, e) -> bool:
+        """`e` is a dictionary filled, in a loop over the function's symbol-name parameter, with `sympy.Symbol(<that name>)`"""
+        if not isinstance(e, ast.Name):
+            return False
+        names_param = positional_params(fn.node)[1] if len(positional_params(fn.node)) > 1 else None
+        for loop in body_walk(fn.node):
+            if not isinstance(loop, ast.For):
+                continue
+            it = loop.iter.args[0] if isinstance(loop.iter, ast.Call) and dotted(loop.iter.func) == "enumerate" and loop.iter.args else loop.iter
+            if norm(it) != names_param:
+                continue
+            tv = {n.id for n in ast.walk(loop.target) if isinstance(n, ast.Name)}
+            stores = [a for a in ast.walk(loop) if isinstance(a, ast.Assign) and isinstance(a.targets[0], ast.Subscript) and norm(a.targets[0].value) == e.id]
+            if stores and all(isinstance(a.value, ast.Call) and (dotted(a.value.func) or "").split(".")[-1] == "Symbol" and len(a.value.args) == 1 and norm(a.value.args[0]) in tv for a in stores):
+                return True
+        return False
+
+    okl = any(isinstance(c, ast.Call) and (dotted(c.func) or "").endswith("sympify") and kwarg(c, "locals") is not None and ("call:_make_symbols_map" in Defs(de.node).atoms(kwarg(c, "locals")) or _table_from_names(de, kwarg(c, "locals"))) for c in body_walk(de.node))
     ctx.check(okl, R5, de.key, "sympify(expr, locals=<symbol table>)", "expressions are parsed without the record's symbol table as locals: symbol names that shadow sympy names are mis-parsed", de)
     # the stored text of a parameter may be a bare symbol name: Python's own float()/complex() accept the *identifiers*
     # "inf", "nan", "infinity", "j" (and sign/case variants), so parsing the text with them before the symbol table had
@@ -404,6 +445,7 @@ def run(ctx):
         if isinstance(n, ast.Subscript) and isinstance(n.ctx, (ast.Store, ast.Del)) and isinstance(n.value, ast.Name) and n.value.id in elems:
             edits.append(n)
     ctx.check(not edits, R1, cs.key + ":child-records-unaltered", "each circuit of a list is stored as its own complete record", f"`{short(edits[0]) if edits else ''}` edits the record of a single circuit after _circuit_to_dict produced it: the circuits of a list are no longer stored independently (custom-gate definitions of different circuits that share a name get merged, the later circuit is read back with the earlier one's matrix)", f"{cs.module.relpath}:{edits[0].lineno}" if edits else cs)
+    check_symbol_table_slots(ctx)
     ctx.floor("C05-D1", 40)
     ctx.floor("C05-D2", 14)
     ctx.floor("C05-D3", 10)
